@@ -125,6 +125,14 @@ let () =
          | None -> print_endline "OBS shared panic"
          | Some l -> Printf.printf "OBS shared ok %s\n"
                        (String.concat "," (List.map string_of_nat l)))
+    | "DOMAINTYPE" :: k :: rest ->
+        toks := rest;
+        let bs = times (int_of_string k) nextn in
+        (match decode_domain_type true bs with
+         | None -> print_endline "OBS domaintype panic"
+         | Some None -> print_endline "OBS domaintype err"
+         | Some (Some l) -> Printf.printf "OBS domaintype ok %s\n"
+                              (String.concat "," (List.map string_of_n l)))
     | [ "SNI"; k; b0; b1; i2; b4; ni ] ->
         (match signed_node_info_post_json (nat_of_string k) (b b0) (b b1) (b i2) (b b4) (b ni) with
          | None -> print_endline "OBS sni panic"
